@@ -86,6 +86,7 @@ pub fn tokenize_inline_content(content: &str) -> Result<Vec<Node>, CompilerError
             if !text.is_empty() {
                 nodes.push(Node::Text(std::mem::take(&mut text)));
             }
+            end_text_before_divert(&mut nodes);
             let divert_str = content[index..].trim();
             let mut divert_nodes = parse_divert_line(divert_str)?;
             nodes.append(&mut divert_nodes);
@@ -145,6 +146,17 @@ pub fn tokenize_inline_content(content: &str) -> Result<Vec<Node>, CompilerError
     }
 
     Ok(nodes)
+}
+
+/// The text before a divert ends in exactly one blank, whatever the author wrote
+/// (`He points at the mug,-> drinkit`, `text   -> knot`): it is joined to the first
+/// line of the target. (The reference compiler's `TrimEndWhitespace` with
+/// `terminateWithSpace`; the text of a choice is not treated that way.)
+pub fn end_text_before_divert(nodes: &mut [Node]) {
+    if let Some(Node::Text(text)) = nodes.last_mut() {
+        text.truncate(text.trim_end_matches([' ', '\t']).len());
+        text.push(' ');
+    }
 }
 
 pub fn parse_dynamic_string(input: &str) -> Result<DynamicString, CompilerError> {
